@@ -9,6 +9,7 @@ from pydiffx.dom import DiffX
 from pydiffx.dom.reader import DiffXDOMReader
 from pydiffx.dom.writer import DiffXDOMWriter
 from pydiffx.errors import (BaseDiffXError, DiffXOptionValueError,
+                            DiffXSectionOrderError,
                             DiffXUnknownOptionError)
 
 from props.native_gen import TEXTS, DIFFS
@@ -400,15 +401,346 @@ def c13(seed, n):
     return evals, None, known
 
 
+# --- C05 / C06 -----------------------------------------------------------
+PRE_ATTR = {'indent': 'preamble_indent', 'line_endings':
+            'preamble_line_endings', 'mimetype': 'preamble_mimetype',
+            'encoding': 'preamble_encoding'}
+
+
+def tree_from_calls(calls, how):
+    """Build the tree through the public API: constructor keyword arguments
+    (how=0) or typed attributes after construction (how=1)."""
+    d = None
+    cur = None
+    for name, args, kw in calls:
+        if name == '__init__':
+            d = DiffX(**kw) if how == 0 else DiffX()
+            if how:
+                for k, v in kw.items():
+                    setattr(d, k, v)
+            cur = d
+        elif name == 'new_change':
+            cur = d.add_change(**kw) if how == 0 else d.add_change()
+            if how:
+                for k, v in kw.items():
+                    setattr(cur, k, v)
+        elif name == 'new_file':
+            ch = d.changes[-1]
+            cur = ch.add_file(**kw) if how == 0 else ch.add_file()
+            if how:
+                for k, v in kw.items():
+                    setattr(cur, k, v)
+        elif name == 'write_preamble':
+            cur.preamble = args[0]
+            for k, v in kw.items():
+                setattr(cur, PRE_ATTR[k], v)
+        elif name == 'write_meta':
+            cur.meta = copy.deepcopy(args[0])
+            for k, v in kw.items():
+                setattr(cur, {'encoding': 'meta_encoding',
+                              'meta_format': 'meta_format'}[k], v)
+        elif name == 'write_diff':
+            cur.diff = args[0]
+            for k, v in kw.items():
+                setattr(cur, {'encoding': 'diff_encoding', 'line_endings':
+                              'diff_line_endings', 'diff_type':
+                              'diff_type'}[k], v)
+        elif name == 'empty':
+            # an empty content section that carries options: omitted
+            setattr(cur, args[0], args[1])
+            for k, v in kw.items():
+                setattr(cur, k, v)
+    return d
+
+
+def vary_calls(rng, calls):
+    """Shapes random_calls never makes: no change, changes without files,
+    files without metadata, empty content sections with options."""
+    r = rng.random()
+    if r < .08:
+        return calls[:1], False
+    out = []
+    skip_files = rng.random() < .06
+    infile = False
+    for c in calls:
+        if c[0] == 'new_file':
+            infile = True
+        elif c[0] in ('new_change', '__init__'):
+            infile = False
+        if skip_files and infile:
+            continue
+        out.append(c)
+    final = []
+    infile = False
+    dropped_meta = 0
+    for c in out:
+        if c[0] == 'new_file':
+            infile = True
+        elif c[0] in ('new_change', '__init__'):
+            infile = False
+        if infile and c[0] == 'write_meta' and rng.random() < .04:
+            dropped_meta += 1
+            continue
+        final.append(c)
+        if c[0] in ('__init__', 'new_change') and rng.random() < .2:
+            nxt = rng.choice([
+                ('empty', ['preamble', ''], {'preamble_indent': 2,
+                                             'preamble_mimetype':
+                                             'text/plain'}),
+                ('empty', ['meta', {}], {'meta_encoding': 'utf-16'})])
+            final.append(nxt)
+        if c[0] == 'new_file' and rng.random() < .15:
+            final.append(('empty', ['diff', b''], {'diff_type': 'binary'}))
+    # an 'empty' followed by a real call for the same section is overwritten
+    clean = []
+    for i, c in enumerate(final):
+        if c[0] == 'empty':
+            sec = c[1][0]
+            j = i + 1
+            clash = False
+            while j < len(final) and final[j][0] not in (
+                    'new_change', 'new_file'):
+                if final[j][0] == 'write_' + sec:
+                    clash = True
+                j += 1
+            if clash:
+                continue
+        clean.append(c)
+    return clean, not skip_files and dropped_meta == 0
+
+
+DEFAULTS = {'preamble': ({}, None), 'meta': ({'format': 'json'}, {}),
+            'diff': ({}, None)}
+CLS = {'preamble': 'DiffXPreambleSection', 'meta': 'DiffXMetaSection',
+       'diff': 'DiffXFileDiffSection', 'change': 'DiffXChangeSection',
+       'file': 'DiffXFileSection', 'diffx': 'DiffX'}
+
+
+def expected_tree(records):
+    """Snapshot (format of snap()) of the tree the documented rules give
+    for a record sequence; written from the statement, not from dom/."""
+    def content(level, name):
+        o, c = DEFAULTS[name]
+        return {'cls': CLS[name], 'id': '.' * level + name,
+                'options': dict(o), 'content': copy.deepcopy(c)}
+
+    def container(level, name, options):
+        subs = [content(level + 1, 'preamble'), content(level + 1, 'meta')] \
+            if name != 'file' else [content(level + 1, 'meta'),
+                                    content(level + 1, 'diff')]
+        return {'cls': CLS[name],
+                'id': 'None' if name == 'diffx' else '.' * level + name,
+                'options': dict(options), 'sub': subs}
+    root = None
+    stack = []
+    for r in records:
+        t, lvl = r['type'], r['level']
+        opts = dict(r['options'])
+        if t in ('diffx', 'change', 'file'):
+            node = container(lvl, t, opts)
+            if t == 'diffx':
+                root = node
+                stack = [node]
+            else:
+                stack = stack[:lvl]
+                stack[-1]['sub'].append(node)
+                stack.append(node)
+        else:
+            opts.pop('length', None)
+            parent = stack[lvl - 1]
+            sec = [x for x in parent['sub']
+                   if x['id'] == '.' * lvl + t][0]
+            sec['options'] = opts
+            sec['content'] = r[{'preamble': 'text', 'meta': 'metadata',
+                                'diff': 'diff'}[t]]
+    return root
+
+
+def c05(seed, n):
+    from props.native_gen import random_calls
+    from props.native_spec import SpecWriter
+    rng = random.Random(seed)
+    evals = 0
+    skipped = 0
+    unenc = 0
+    for _ in range(n):
+        calls, strict = vary_calls(rng, random_calls(rng))
+        how = rng.randrange(2)
+        try:
+            sw = SpecWriter()
+            sw.replay([c for c in copy.deepcopy(calls) if c[0] != 'empty'])
+            sb = b''.join(sw.out)
+        except (UnicodeError, LookupError):
+            unenc += 1
+            continue
+        try:
+            t = tree_from_calls(calls, how)
+        except Exception as e:  # noqa
+            return evals, {'error': 'building the tree raised %s: %s' % (
+                type(e).__name__, e), 'calls': repr(calls)[:1500]}
+        evals += 1
+        before = snap(t)
+        try:
+            b = t.to_bytes()
+        except DiffXSectionOrderError:
+            if strict:
+                return evals, {'error': 'to_bytes rejected a tree whose '
+                               'shape the hierarchy allows',
+                               'calls': repr(calls)[:1500]}
+            skipped += 1
+            continue
+        except Exception as e:  # noqa
+            return evals, {'error': 'to_bytes raised %s: %s although the '
+                           'specification serialises the tree' % (
+                               type(e).__name__, e),
+                           'calls': repr(calls)[:1500]}
+        if b != sb:
+            i = next((k for k in range(min(len(b), len(sb)))
+                      if b[k] != sb[k]), min(len(b), len(sb)))
+            return evals, {'error': 'to_bytes differs from the canonical '
+                           'serialisation at byte %d: %r vs %r' % (
+                               i, b[max(0, i - 40):i + 40],
+                               sb[max(0, i - 40):i + 40]),
+                           'calls': repr(calls)[:1500]}
+        if snap(t) != before:
+            return evals, {'error': 'to_bytes changed the tree'}
+        try:
+            t2 = DiffX.from_bytes(b)
+        except Exception as e:  # noqa
+            return evals, {'error': 'from_bytes(to_bytes(tree)) raised %s: '
+                           '%s' % (type(e).__name__, e),
+                           'calls': repr(calls)[:1500]}
+        exp = expected_tree(sw.records)
+        got = snap(t2)
+        if got != exp:
+            return evals, {'error': 'parsed tree differs from the original '
+                           'after normalisation: %s' % first_diff(exp, got),
+                           'calls': repr(calls)[:1500]}
+        # C06 (canonical): parse + serialise is the identity on bytes
+        try:
+            b2 = t2.to_bytes()
+        except Exception as e:  # noqa
+            return evals, {'error': 're-serialising a parsed canonical file '
+                           'raised %s: %s' % (type(e).__name__, e),
+                           'calls': repr(calls)[:1500]}
+        if b2 != b:
+            i = next((k for k in range(min(len(b), len(b2)))
+                      if b[k] != b2[k]), min(len(b), len(b2)))
+            return evals, {'error': 'from_bytes(b).to_bytes() != b at byte '
+                           '%d: %r vs %r' % (i, b2[max(0, i - 40):i + 40],
+                                             b[max(0, i - 40):i + 40]),
+                           'calls': repr(calls)[:1500]}
+    return evals, None, [], {'shape_rejected_by_writer': skipped,
+                             'not_encodable': unenc}
+
+
+def first_diff(a, b, path=''):
+    if type(a) is not type(b):
+        return '%s: %r vs %r' % (path, a, b)
+    if isinstance(a, dict):
+        for k in sorted(set(a) | set(b), key=str):
+            if k not in a or k not in b:
+                return '%s.%s: only on one side (%r / %r)' % (
+                    path, k, a.get(k), b.get(k))
+            d = first_diff(a[k], b[k], '%s.%s' % (path, k))
+            if d:
+                return d
+        return None
+    if isinstance(a, list):
+        if len(a) != len(b):
+            return '%s: length %d vs %d' % (path, len(a), len(b))
+        for i, (x, y) in enumerate(zip(a, b)):
+            d = first_diff(x, y, '%s[%d]' % (path, i))
+            if d:
+                return d
+        return None
+    return None if a == b else '%s: %r vs %r' % (path, a, b)
+
+
+def contents(records):
+    out = []
+    for r in records:
+        c = [r[k] for k in ('text', 'metadata', 'diff') if k in r]
+        out.append((r['section'], c[0] if c else None))
+    return out
+
+
+def c06(seed, n):
+    """Foreign well-formed files: accepted => re-serialisable, same section
+    contents, fixed point."""
+    from props import native_C03 as F
+    from props.native_gen import random_file
+    rng = random.Random(seed)
+    evals = 0
+    rejected = {}
+    # canonical files (streaming-writer output): the identity on bytes
+    for _ in range(n // 2):
+        calls, b = random_file(rng)
+        evals += 1
+        try:
+            b2 = DiffX.from_bytes(b).to_bytes()
+        except Exception as e:  # noqa
+            return evals, {'error': 'canonical file: parse + serialise '
+                           'raised %s: %s' % (type(e).__name__, e),
+                           'calls': repr(calls)[:1500]}
+        if b2 != b:
+            i = next((k for k in range(min(len(b), len(b2)))
+                      if b[k] != b2[k]), min(len(b), len(b2)))
+            return evals, {'error': 'canonical file: from_bytes(b).to_bytes()'
+                           ' != b at byte %d: %r vs %r' % (
+                               i, b2[max(0, i - 40):i + 40],
+                               b[max(0, i - 40):i + 40]),
+                           'calls': repr(calls)[:1500]}
+    for _ in range(n):
+        fb = F.make_file(rng)
+        data = b''.join(fb.out)
+        try:
+            t = DiffX.from_bytes(data)
+        except BaseDiffXError as e:
+            rejected[type(e).__name__] = rejected.get(type(e).__name__, 0) + 1
+            continue
+        except Exception as e:  # noqa
+            return evals, {'error': 'from_bytes raised %s: %s' % (
+                type(e).__name__, e), 'data': repr(data)[:1500]}
+        evals += 1
+        try:
+            b2 = t.to_bytes()
+        except Exception as e:  # noqa
+            return evals, {'error': 're-serialising an accepted foreign file '
+                           'raised %s: %s' % (type(e).__name__, e),
+                           'data': repr(data)[:1500]}
+        r1, e1 = F.read(data)
+        r2, e2 = F.read(b2)
+        if e2 or contents(r1) != contents(r2):
+            return evals, {'error': 're-serialised file carries different '
+                           'section contents: %s' % (
+                               e2 or first_diff(
+                                   [list(x) for x in contents(r1)],
+                                   [list(x) for x in contents(r2)])),
+                           'data': repr(data)[:1500]}
+        try:
+            b3 = DiffX.from_bytes(b2).to_bytes()
+        except Exception as e:  # noqa
+            return evals, {'error': 'second cycle raised %s: %s' % (
+                type(e).__name__, e), 'data': repr(data)[:1500]}
+        if b3 != b2:
+            return evals, {'error': 'not a fixed point: second cycle '
+                           'changed the bytes', 'data': repr(data)[:1500]}
+    return evals, None, [], rejected
+
+
 def main():
     req = json.load(sys.stdin)
-    fn = {'c19': c19, 'c18': c18, 'c13': c13}[req['op']]
+    fn = {'c19': c19, 'c18': c18, 'c13': c13, 'c05': c05,
+          'c06': c06}[req['op']]
     r = fn(req['seed'], req['n'])
     e, w = r[0], r[1]
     out = {'evaluations': e, 'witness': w}
     if len(r) > 2:
         out['known_class_hits'] = len(r[2])
         out['known_class_sample'] = r[2][:2]
+    if len(r) > 3:
+        out['skipped'] = r[3]
     json.dump(out, sys.stdout)
 
 
